@@ -7,13 +7,13 @@ import vlib
 LEVEL = "model_checking"
 
 MODES = {  # cfg -> driver -x
-    "FastIndex_sqe.cfg": "mode=S,keep=-1", "FastIndex_se.cfg": "mode=S,keep=-1", "FastIndex_ssim.cfg": "mode=S,keep=1",
+    "FastIndex_sqe.cfg": "mode=S,keep=-1", "FastIndex_dqe.cfg": "mode=S,keep=-1", "FastIndex_se.cfg": "mode=S,keep=-1", "FastIndex_ssim.cfg": "mode=S,keep=1",
     "FastIndex_rqe.cfg": "mode=R,keep=1", "FastIndex_re.cfg": "mode=R,keep=1", "FastIndex_rsim.cfg": "mode=R,keep=1",
     "FastIndex_lqe.cfg": "mode=L,keep=-1", "FastIndex_le.cfg": "mode=L,keep=-1", "FastIndex_lsim.cfg": "mode=L,keep=-1",
 }
 
 
-def replay(ctx, binary, cfg, label, sim=0, depth=18, timeout=1500):
+def replay(ctx, binary, cfg, label, sim=0, depth=18, timeout=1500, need=()):
     if sim:
         r = vlib.run_tlc(ctx, "MCFastIndex", cfg, mode="simulate", simulate=sim, depth=depth, tags=("TRACE",), timeout=timeout)
     else:
@@ -28,10 +28,18 @@ def replay(ctx, binary, cfg, label, sim=0, depth=18, timeout=1500):
     s = vlib.handle_driver_results(ctx, res)
     if s.get("stuck_steps", 0) >= 3:
         raise vlib.Inconclusive("TIMEOUT", "%s: gated loader did not reach its gates" % label)
-    if s.get("drift", 0) and s.get("violating", 0):
-        ctx.notes.append("%s: %d behaviours drifted from the model next to %d violating ones" % (label, s["drift"], s["violating"]))
+    # "drift" counts behaviours whose raw DB content left the model WITHOUT a verdict violation; a behaviour
+    # that diverges is still scanned and probed to its end, and when one of the diverging behaviours fails the
+    # verdict the divergence is only noted
+    if s.get("drift", 0) and (s.get("drift_with_violation", 0) or s.get("violating", 0) or ctx.violations):
+        ctx.notes.append("%s: %d behaviours drifted from the model without, %d with a verdict violation (%d violating in all)" %
+                         (label, s["drift"], s.get("drift_with_violation", 0), s.get("violating", 0)))
     elif s.get("drift", 0):
-        raise vlib.Inconclusive("MODEL-DIVERGENCE", "%s: %d behaviours where the real DB content differs from the model: %s" % (label, s["drift"], s.get("drift_samples")))
+        raise vlib.Inconclusive("MODEL-DIVERGENCE", "%s: %d behaviours where the real DB content differs from the model and no verdict violation: %s" % (label, s["drift"], s.get("drift_samples")))
+    for k in need:
+        if not s.get(k):
+            raise vlib.Inconclusive("VACUOUS", "%s: history class %s never generated" % (label, k))
+        ctx.add(k, int(s[k]))
     if not s.get("fast_index_entries_found_by_reads"):
         raise vlib.Inconclusive("VACUOUS", "%s: no read ever found a fast-index entry" % label)
     ctx.add("traces_validated_against_impl", int(s.get("replays", 0)))
@@ -69,11 +77,15 @@ def run(ctx):
         ctx.cov["model_switches_load_bearing"] = sorted(want)
     # (R) replay with the FastSound scan after every step
     if quick:
+        replay(ctx, binary, "FastIndex_dqe.cfg", "every edge, standalone store, index toggled at restarts over removed keys, <=10 steps",
+               need=("reopened_on_over_emptied_tree_with_stale_index", "reopened_on_over_partly_removed_keys_with_stale_index"))
         replay(ctx, binary, "FastIndex_sqe.cfg", "every edge, standalone store (toggles, same-handle reloads), <=6 steps")
         replay(ctx, binary, "FastIndex_rqe.cfg", "every edge, under rootmulti (collector, KeepRecent=1, toggles, same-handle reloads), <=6 steps")
         replay(ctx, binary, "FastIndex_lqe.cfg", "every edge, gated concurrent loader over the live DB, <=7 steps")
         replay(ctx, binary, "FastIndex_lsim.cfg", "simulation, loader + toggles, 4 versions, 18 steps", sim=150)
     else:
+        replay(ctx, binary, "FastIndex_dqe.cfg", "every edge, standalone store, index toggled at restarts over removed keys, <=10 steps",
+               need=("reopened_on_over_emptied_tree_with_stale_index", "reopened_on_over_partly_removed_keys_with_stale_index"))
         replay(ctx, binary, "FastIndex_se.cfg", "every edge, standalone store with toggles, <=8 steps")
         replay(ctx, binary, "FastIndex_re.cfg", "every edge, under rootmulti, <=8 steps")
         replay(ctx, binary, "FastIndex_le.cfg", "every edge, gated concurrent loader, <=9 steps", timeout=3000)
